@@ -412,6 +412,11 @@ def gen_command(rng, rig, lim, ptstate):
             vals = [fnum(rng, -3000, 3000) for i in range(dof)]
         else:
             vals = [rng.choice(BADNUM) for i in range(dof)]
+        if rng.random() < 0.2:
+            # a valid prefix and ONE malformed/empty element at a later position (refused as a whole)
+            vals = [fnum(rng, -(hi[i] - lo[i]) / 8, (hi[i] - lo[i]) / 8) for i in range(dof)]
+            vals[rng.randrange(dof) if rng.random() < 0.3 else dof - 1 - rng.randrange(max(1, dof - 1))] = \
+                rng.choice(['x', '', ' ', '1..2', '--1', '1e', 'None', '0x10', '1,', 'e5'])
         if rng.random() < 0.08:
             vals = vals[:-1] if rng.random() < 0.5 else vals + ['1']
         return 'OFFSET=%s,%s' % (sv, ','.join(vals))
@@ -448,6 +453,42 @@ def gen_pt(rng, rig, lim, ptstate):
     if rng.random() < 0.05:
         line += ',1'
     return line
+
+
+REFUSED_TOKENS = ['x', '', 'nan', '1..2']
+
+
+def refused_prefix_traces(lim):
+    """systematic: on every multi-axis servo, after an acknowledged OFFSET and PRESET, the commands
+    OFFSET / PRESET / PROGRAMTRACK with valid values everywhere except ONE element — at every position,
+    for several malformed values (and an out-of-range one for PRESET).  Such a command is refused as a whole
+    (OFFSET ...,nan,... is the exception: float() accepts it) and must leave every read-back unchanged.
+    Returns {(servo, command): trace} with trace = [[line or None, dticks], ...]"""
+    out = {}
+    for sv, (lo, hi, _, dof, cap) in lim.items():
+        if dof < 2:
+            continue
+        mid = [repr(round(lo[i] + (hi[i] - lo[i]) * (i + 2.0) / (dof + 4), 4)) for i in range(dof)]
+        ack_off = [repr(round((hi[i] - lo[i]) * 0.01 * (i + 1), 5)) for i in range(dof)]
+        new_off = [repr(round(-(hi[i] - lo[i]) * 0.013 * (i + 1), 5)) for i in range(dof)]
+        new_pos = [repr(round(lo[i] + (hi[i] - lo[i]) * (i + 1.0) / (dof + 6), 4)) for i in range(dof)]
+        head = [[None, 0], ['OFFSET=%s,%s' % (sv, ','.join(ack_off)), 10], ['PRESET=%s,%s' % (sv, ','.join(mid)), 10],
+                ['STATUS=%s' % sv, 1024]]
+        for cmd in ('OFFSET', 'PRESET', 'PROGRAMTRACK'):
+            tr = [list(x) for x in head]
+            for j in range(dof):
+                toks = REFUSED_TOKENS + (['1e9'] if cmd != 'OFFSET' else [])
+                for bad in toks:
+                    vals = list(new_off if cmd == 'OFFSET' else new_pos)
+                    vals[j] = bad
+                    if cmd == 'PROGRAMTRACK':
+                        line = 'PROGRAMTRACK=%s,7,0,99999999999,%s' % (sv, ','.join(vals))
+                    else:
+                        line = '%s=%s,%s' % (cmd, sv, ','.join(vals))
+                    tr.append([line, 10])
+            tr.append(['STATUS=%s' % sv, 10])
+            out[(sv, cmd)] = tr
+    return out
 
 
 def pt_burst(rng, rig, lim, feed, refresh):
